@@ -3,6 +3,7 @@ import GrcovModel.Drv.Lcov
 import GrcovModel.Drv.Pipeline
 import GrcovModel.Drv.Confine
 import GrcovModel.Drv.LlvmTools
+import GrcovModel.Drv.Writers
 open Grcov.Drv
 
 def step (line : String) : String :=
@@ -15,6 +16,8 @@ def step (line : String) : String :=
   | "pipe.stuck" :: args => handlePipeStuck args
   | "confine.enclosed" :: args => handleEnclosed args
   | "llvm.model" :: args => handleLlvmModel args
+  | "c03.covdir" :: args => handleCovdirArray args
+  | "c03.html" :: args => handleHtmlCounts args
   | _ => "bad-op"
 
 partial def loop (h : IO.FS.Stream) (out : IO.FS.Stream) : IO Unit := do
